@@ -939,6 +939,141 @@ def undo_local_renames(trees: Dict[str, ast.Module]) -> Dict[str, str]:
     return report
 
 
+_PURE_CALLS = ("len", "str", "bool", "isinstance", "callable", "any", "all", "startswith", "endswith", "get", "isawaitable", "iscoroutine", "tuple",
+               "frozenset", "getattr", "hasattr", "id")
+
+
+def _pure_expr(v: ast.AST) -> bool:
+    for y in ast.walk(v):
+        if isinstance(y, ast.Call):
+            fn = y.func
+            nm = fn.id if isinstance(fn, ast.Name) else (fn.attr if isinstance(fn, ast.Attribute) else "")
+            if nm not in _PURE_CALLS:
+                return False
+        if isinstance(y, (ast.Await, ast.Yield, ast.YieldFrom, ast.Lambda, ast.NamedExpr)):
+            return False
+    return True
+
+
+def _leftmost_name(e: ast.AST) -> Optional[ast.Name]:
+    """The name that is evaluated first in a condition: X, not X, X and .., (not X) or .."""
+    while True:
+        if isinstance(e, ast.UnaryOp) and isinstance(e.op, ast.Not):
+            e = e.operand
+        elif isinstance(e, ast.BoolOp):
+            e = e.values[0]
+        else:
+            break
+    return e if isinstance(e, ast.Name) else None
+
+
+def _push_not(e: ast.AST, negate: bool = False) -> ast.AST:
+    """Negation normal form of a condition (valid where only the truth value matters)."""
+    if isinstance(e, ast.UnaryOp) and isinstance(e.op, ast.Not):
+        return _push_not(e.operand, not negate)
+    if isinstance(e, ast.BoolOp):
+        op = e.op
+        if negate:
+            op = ast.Or() if isinstance(e.op, ast.And) else ast.And()
+        return ast.copy_location(ast.BoolOp(op=op, values=[_push_not(v, negate) for v in e.values]), e)
+    if negate:
+        if isinstance(e, ast.Compare) and len(e.ops) == 1:
+            flip = {ast.In: ast.NotIn, ast.NotIn: ast.In, ast.Eq: ast.NotEq, ast.NotEq: ast.Eq, ast.Is: ast.IsNot, ast.IsNot: ast.Is}
+            if type(e.ops[0]) in flip:
+                return ast.copy_location(ast.Compare(left=e.left, ops=[flip[type(e.ops[0])]()], comparators=e.comparators), e)
+        return ast.copy_location(ast.UnaryOp(op=ast.Not(), operand=e), e)
+    return e
+
+
+def normalise_conditions(trees: Dict[str, ast.Module]) -> Dict[str, str]:
+    """Two spellings of conditions are undone in the model, so that every rule reads the condition where it is tested:
+      * ``cond = <test>`` immediately followed by ``if cond:`` (the name used nowhere else) - the test is put back in place; likewise a
+        named sub-condition folded into the assignment that follows it;
+      * ``not (not a or not b)`` - negations are pushed inward in the tests of ``if`` / ``while`` / conditional expressions / filters
+        (only a *double* negation or a negated and / or is rewritten: ``not x == y`` stays as written)."""
+    n_fold = n_nnf = 0
+    for tree in trees.values():
+        for fn in [x for x in ast.walk(tree) if isinstance(x, (ast.FunctionDef, ast.AsyncFunctionDef))]:
+            changed = True
+            while changed:
+                changed = False
+                counts: Dict[str, int] = {}
+                stores: Dict[str, int] = {}
+                for x in ast.walk(fn):
+                    if isinstance(x, ast.Name):
+                        if isinstance(x.ctx, ast.Load):
+                            counts[x.id] = counts.get(x.id, 0) + 1
+                        else:
+                            stores[x.id] = stores.get(x.id, 0) + 1
+                for owner in ast.walk(fn):
+                    for fld in ("body", "orelse", "finalbody"):
+                        blk = getattr(owner, fld, None)
+                        if not (isinstance(blk, list) and len(blk) >= 2 and isinstance(blk[0], ast.stmt)):
+                            continue
+                        for i in range(len(blk) - 1):
+                            a, b = blk[i], blk[i + 1]
+                            if not (isinstance(a, ast.Assign) and len(a.targets) == 1 and isinstance(a.targets[0], ast.Name)):
+                                continue
+                            nm = a.targets[0].id
+                            if counts.get(nm, 0) != 1 or stores.get(nm, 0) != 1:
+                                continue
+                            if isinstance(b, ast.If):
+                                host, fldn = b, "test"
+                            elif isinstance(b, ast.Assign) and len(b.targets) == 1 and isinstance(b.targets[0], ast.Name) and isinstance(b.value, (ast.BoolOp, ast.UnaryOp)):
+                                host, fldn = b, "value"
+                            else:
+                                continue
+                            expr = getattr(host, fldn)
+                            uses = [y for y in ast.walk(expr) if isinstance(y, ast.Name) and y.id == nm and isinstance(y.ctx, ast.Load)]
+                            if len(uses) != 1 or not isinstance(a.value, (ast.Compare, ast.BoolOp, ast.UnaryOp, ast.Call, ast.Attribute, ast.Name, ast.Constant)):
+                                continue
+                            if fldn == "value" and not isinstance(a.value, (ast.Compare, ast.BoolOp, ast.UnaryOp, ast.Call)):
+                                continue
+                            lm = _leftmost_name(expr)
+                            if not (_pure_expr(a.value) or (lm is not None and lm is uses[0])):
+                                continue
+                            if any(isinstance(y, (ast.Lambda, ast.ListComp, ast.SetComp, ast.DictComp, ast.GeneratorExp)) and any(z is uses[0] for z in ast.walk(y)) for y in ast.walk(expr)):
+                                continue
+
+                            class R(ast.NodeTransformer):
+                                def visit_Name(self, x):
+                                    return a.value if x is uses[0] else x
+                            setattr(host, fldn, R().visit(expr))
+                            del blk[i]
+                            n_fold += 1
+                            changed = True
+                            break
+                        if changed:
+                            break
+                    if changed:
+                        break
+        for x in ast.walk(tree):
+            tests = []
+            if isinstance(x, (ast.If, ast.While, ast.IfExp)):
+                tests.append((x, "test"))
+            if isinstance(x, ast.comprehension):
+                for k in range(len(x.ifs)):
+                    tests.append((x.ifs, k))
+            for holder, key in tests:
+                t = getattr(holder, key) if isinstance(key, str) else holder[key]
+                needs = any(isinstance(y, ast.UnaryOp) and isinstance(y.op, ast.Not) and isinstance(y.operand, (ast.BoolOp, ast.UnaryOp)) for y in ast.walk(t)
+                            if not isinstance(y, (ast.Lambda,)))
+                if not needs:
+                    continue
+                t2 = _push_not(t)
+                if isinstance(key, str):
+                    setattr(holder, key, t2)
+                else:
+                    holder[key] = t2
+                n_nnf += 1
+    out = {}
+    if n_fold:
+        out["<conditions>"] = f"{n_fold} named condition(s) that were tested in the very next statement read in place"
+    if n_nnf:
+        out["<negations>"] = f"{n_nnf} negated and / or test(s) read with the negation pushed inward"
+    return out
+
+
 def inline_new_helpers(trees: Dict[str, ast.Module]) -> Dict[str, str]:
     known = load_known()
     if known is None:
@@ -948,4 +1083,6 @@ def inline_new_helpers(trees: Dict[str, ast.Module]) -> Dict[str, str]:
     report.update(name_locals(trees))
     report.update(propagate_new_constants(trees))
     report.update(Inliner(trees, known).run())
+    if not os.environ.get("XSM_NO_COND_NORMALISE"):
+        report.update(normalise_conditions(trees))
     return report
